@@ -7,3 +7,7 @@ import Skv.Props.C17
 #print axioms C17_queue_never_overflows
 #print axioms C17_consts_ok
 #print axioms C17_fixed_overflow_schedule
+#print axioms C17_no_circular_wait
+#print axioms C17_lock_progress
+#print axioms C17_ops_disciplined
+#print axioms C17_old_reader_order_deadlocks
